@@ -5,7 +5,7 @@
       quantifies over; (3) outputs are compared, as sets of typed tuples, with the spec's model."""
 import json, os, shutil, concurrent.futures as cf
 from . import render, souffle as sf, tlc, gen, build
-from .common import SPEC, NCPU, canon, log, to_tla, write_mc
+from .common import SPEC, NCPU, canon, log, to_tla, write_mc, write_data
 
 def tlc_models(Ps, wd, res, workers=None, timeout=1500, chunk=None):
     """Returns cases[p] = list of {edb, model, full, oob, iters}; accumulates TLC counts into res."""
@@ -13,11 +13,10 @@ def tlc_models(Ps, wd, res, workers=None, timeout=1500, chunk=None):
     chunk = chunk or len(Ps)
     for base in range(0, len(Ps), chunk):
         part = Ps[base:base + chunk]
-        mod, cfg = write_mc(wd, "MCD_%d" % base, "MC_Datalog",
-                            "ProgramsInline == " + to_tla([gen.strip_for_tlc(P) for P in part]),
-                            "SPECIFICATION Spec\nCONSTANT Programs <- ProgramsInline\nINVARIANT IsModel Supported Emit\n"
-                            "PROPERTY Monotone\nCHECK_DEADLOCK FALSE\n")
-        r = tlc.run_tlc(mod, cfg, wd, workers=workers, timeout=timeout)
+        d = os.path.join(wd, "tlc_%d" % base)
+        write_data(d, "DatalogData", {"Programs": [gen.strip_for_tlc(P) for P in part]})
+        r = tlc.run_tlc(os.path.join(SPEC, "MC_Datalog.tla"), os.path.join(SPEC, "MC_Datalog.cfg"), d, workers=workers,
+                        timeout=timeout, lib=d)
         if not r["ok"]:
             if r["violated"]:
                 res.infra_errors.append("spec-level property %s of Datalog.tla violated (spec bug, not souffle): %s"
